@@ -15,6 +15,8 @@ real code : the two REAL tuples (return_all vs the tuple assembled from the indi
 import math
 import time
 import copy
+import signal
+import contextlib
 import inspect
 import numpy as np
 from common import req, close, relerr, TOL, run_driver
@@ -257,17 +259,40 @@ def gen_fluid(r, fp_type=None):
     return fp, descr, yk
 
 
+class FlashTimeout(Exception):
+    pass
+
+
+@contextlib.contextmanager
+def time_limit(sec):
+    """abort a library call that runs longer than `sec` seconds (a flash whose stability analysis runs into its
+    iteration limit can take more than 10 s; such states are skipped, not waited for)"""
+    def handler(signum, frame):
+        raise FlashTimeout()
+    old = signal.signal(signal.SIGALRM, handler)
+    signal.setitimer(signal.ITIMER_REAL, sec)
+    try:
+        yield
+    finally:
+        signal.setitimer(signal.ITIMER_REAL, 0.)
+        signal.signal(signal.SIGALRM, old)
+
+
 def fluid_masses(fp, yk, st, fp_type):
     """masses of a particle with equivalent diameter st['de']; falls back to a nominal density when the
     library cannot produce a finite density for this state"""
     m = None
     t0 = time.time()
+    timed_out = False
     try:
-        with S.quiet():
+        with S.quiet(), time_limit(1.0):
             m = np.array(fp.masses_by_diameter(st['de'], st['T'], st['P'], yk), dtype=float)
+    except FlashTimeout:
+        m = None
+        timed_out = True
     except Exception:
         m = None
-    st['t_flash'] = time.time() - t0          # contains one flash for a mixed-phase particle
+    st['t_flash'] = float('inf') if timed_out else time.time() - t0          # contains one flash for a mixed-phase particle
     fp.K = None
     if m is None or not np.all(np.isfinite(m)) or not np.sum(m) > 0.:
         rho = 100. if fp_type == 0 else 700.
@@ -590,34 +615,31 @@ def intermediate_check(ctx, cases):
     ctx.count('intermediate properties compared (viscosity / interface_tension / fugacity vs the values inside return_all)', n)
 
 
-def library_contracts(ctx, cases, r):
-    """the two library contracts the theorems assume, checked on the real library:
+def library_contracts(ctx, cases, r, acc):
+    """the two library contracts the theorems assume, checked on the real library (accumulated over the batches):
     ShapeContract (particle_shape answers 1, 2 or 3) on every recorded call;
     DirtyIgnoresMuP (us_ellipsoid / xfer_sphere / xfer_ellipsoid ignore mu_p for status = -1) by re-calling the
     recorded dirty calls with a different particle viscosity"""
     from tamoc import dbm
     lib = dbm.dbm_f
-    bad_shape = []
-    bad_dirty = []
-    nshape = ndirty = 0
     for c in cases:
         for mth, rr in c['res'].items():
             for name, args, resv in rr['table']:
                 if name == 'particle_shape':
-                    nshape += 1
+                    acc['nshape'] += 1
                     if resv not in ([1.0], [2.0], [3.0]):
-                        bad_shape.append((args, resv))
-                elif name == 'us_ellipsoid' and args[-1] == -1.0 and ndirty < 400 and all(math.isfinite(a) for a in args):
-                    ndirty += 1
+                        acc['bad_shape'].append((args, resv))
+                elif name == 'us_ellipsoid' and args[-1] == -1.0 and acc['ndirty'] < 400 and all(math.isfinite(a) for a in args):
+                    acc['ndirty'] += 1
                     a2 = list(args)
                     a2[3] = a2[3] * r.uniform(2., 50.)
                     with S.quiet():
                         v = _real(lib.us_ellipsoid(*a2[:6], -1))
                     if not close(v, resv, 0.):
-                        bad_dirty.append((name, args, resv, v))
-                elif name in ('xfer_sphere', 'xfer_ellipsoid') and args[-1] == -1.0 and ndirty < 400 \
+                        acc['bad_dirty'].append((name, args, resv, v))
+                elif name in ('xfer_sphere', 'xfer_ellipsoid') and args[-1] == -1.0 and acc['ndirty'] < 400 \
                         and all(math.isfinite(a) for a in args):
-                    ndirty += 1
+                    acc['ndirty'] += 1
                     nD = len(args) - 8
                     a2 = list(args)
                     a2[-3] = a2[-3] * r.uniform(2., 50.)
@@ -625,11 +647,98 @@ def library_contracts(ctx, cases, r):
                         v = _real(getattr(lib, name)(a2[0], a2[1], a2[2], a2[3], np.array(a2[4:4 + nD]), a2[-4], a2[-3],
                                                     int(a2[-2]), -1))
                     if not close(v, resv, 0.):
-                        bad_dirty.append((name, args, resv, v))
-    ctx.oblige('library contract ShapeContract: particle_shape answered 1, 2 or 3 on %d recorded calls' % nshape,
-               not bad_shape, str(bad_shape[:3]))
-    ctx.oblige('library contract DirtyIgnoresMuP: %d recorded dirty us_ellipsoid/xfer_sphere/xfer_ellipsoid calls repeated '
-               'with another particle viscosity give the identical answer' % ndirty, not bad_dirty, str(bad_dirty[:3]))
+                        acc['bad_dirty'].append((name, args, resv, v))
+
+
+def gen_case(ctx, r, i, kind, ck, state):
+    """one generated particle + state; returns (obj, kind, descr, x, st) or None when the state is skipped"""
+    st = gen_state(r)
+    if kind == 'corpus':
+        obj, descr, x, st = corpus_case(ck)
+        return obj, 'fluid', descr, x, st
+    if kind == 'fluid':
+        # the first cases sweep fp_type x band so that every regime is present in every run
+        fpt = [0, 1, 2][i % 3] if i < 9 + len(CORPUS) else None
+        obj, descr, yk = gen_fluid(r, fpt)
+        if fpt is not None:
+            st['band'] = ['small', 'mid', 'large'][(i // 3) % 3]
+            st['de'] = {'small': lu(r, 50e-6, 300e-6), 'mid': lu(r, 1e-3, 6e-3), 'large': lu(r, 2e-2, 5e-2)}[st['band']]
+        m = fluid_masses(obj, yk, st, descr['fp_type'])
+        if descr['fp_type'] == 2 and (st['t_flash'] > 0.25 or (state['slow_budget'] <= 0 and st['t_flash'] > 0.06)):
+            ctx.count('mixed-phase state skipped (flash slower than 60 ms)')
+            return None
+        x = dict(m=[float(v) for v in m], T=st['T'], P=st['P'], Sa=st['Sa'], Ta=st['Ta'], status=st['status'])
+        return obj, kind, descr, x, st
+    obj, descr = gen_inert(r)
+    with S.quiet():
+        m = float(obj.mass_by_diameter(st['de'], st['T'], st['P'], st['Sa'], st['Ta']))
+    x = dict(m=m, T=st['T'], P=st['P'], Sa=st['Sa'], Ta=st['Ta'], status=st['status'])
+    return obj, kind, descr, x, st
+
+
+def predicate(ctx, c, state):
+    """the property predicate on the two REAL tuples of one case (+ branch counters)"""
+    res, kind = c['res'], c['kind']
+    bundle = BUNDLE if kind == 'fluid' else IBUNDLE
+    fields = FIELDS if kind == 'fluid' else IFIELDS
+    ra = res['return_all']['out']
+    parts = [res[mth]['out'] for mth in bundle]
+    fo, mi0, mi1 = (None, None, None)
+    if kind == 'fluid' and c['descr']['fp_type'] == 2:
+        fo, mi0, mi1 = flash_outcome(res)
+    zero_entry = bool(mi1 is not None and fo == 'mix' and any(v == 0. for v in mi1))
+    shape = ra[0] if not isinstance(ra, Raised) else None
+    key = (kind, c['descr'].get('fp_type'), fo, shape, tuple(c['descr'].get('zero', [])) != (), c['x']['status'],
+           c['descr'].get('isfluid'), c['descr'].get('iscompressible'))
+    ctx.nontrivial.add(key + (float('%.3g' % c['de']), float('%.4g' % c['x']['T']), float('%.3g' % c['x']['P'])))
+    ctx.count('%s fp_type=%s%s' % (kind, c['descr'].get('fp_type'), (' flash:' + fo) if fo else ''))
+    ctx.count('shape %s (%s)' % (shape, kind))
+    ctx.count('band ' + c['band'])
+    if zero_entry:
+        ctx.count('mixed-phase with a zero entry in the liquid row')
+    if c['descr'].get('zero'):
+        ctx.count('zero-mass component(s)')
+    if isinstance(ra, Raised) or any(isinstance(p, Raised) for p in parts):
+        ctx.count('tuple incomplete (a method raised)')
+        return
+    if kind == 'fluid':
+        ind = [parts[0][0], parts[1][0], parts[2][0], parts[3][0], parts[4][0], parts[5][0], parts[6][0],
+               parts[7][0][0] if len(parts[7][0]) == 1 else float('nan')]
+    else:
+        ind = [parts[0][0], parts[1][0], parts[2][0], parts[3][0], parts[4][0],
+               parts[5][0][0] if len(parts[5][0]) == 1 else float('nan')]
+    c['ind'] = ind
+    mixed = fo is not None
+    tol = TOL['flash_fugacity'] if mixed else 1e-12
+    diffs = cmp_tuples(ra, ind, tol)
+    if len(ctx.samples) < 6 and (c['idx'] % 7 == 0):
+        ctx.sample({'particle': c['descr'], 'inputs': c['x'], 'return_all': ra, 'individual': ind})
+    if diffs:
+        state['nviol'] += 1
+        dfields = set(fields[j] for j, _a, _b in diffs)
+        # signature of defect (a): the individual density is the GAS-ROW density of the gas phase alone, the
+        # solubilities (gas-phase fugacities in both paths) agree
+        sig_a = False
+        if CODE['zeroEntryTest'] and zero_entry and 'Cs' not in dfields:
+            for name, args, rv in res['density']['table']:
+                if name == 'density' and close(list(args[2:]), list(mi0), TOL['flash_fugacity']):
+                    sig_a = close(ind[2], rv[0], 1e-12)
+        # signature of defect (b): only quantities the library derives from the particle viscosity differ
+        sig_b = bool(CODE['gasViscLiquidRow']) and fo == 'gas' and dfields <= {'us', 'beta', 'beta_T'}
+        if sig_a:
+            vkey = 'mixed-phase-zero-entry-branch'
+            what = ('mixed-phase particle with a zero-mass component: the individual methods take the single-phase-gas branch '
+                    '(np.sum(mi[1,:] == 0) counts zero entries) and disagree with return_all')
+        elif sig_b:
+            vkey = 'single-phase-gas-viscosity-row'
+            what = ('mixed-phase particle whose flash returns gas only: the individual methods use the liquid-row viscosity '
+                    '(FluidParticle.viscosity reads [1,0]) and disagree with return_all')
+        else:
+            vkey = 'bundle-ne-individual:%s:%s' % (kind, fields[diffs[0][0]])
+            what = 'return_all and the tuple assembled from the individual methods differ'
+        ctx.violation(vkey, what, {'particle': c['descr'], 'inputs': c['x'], 'flash': fo, 'liquid_row': mi1,
+                                   'return_all': ra, 'individual': ind,
+                                   'differing': [(fields[j], a, b) for j, a, b in diffs]})
 
 
 def run(ctx, lean_ok):
@@ -640,167 +749,95 @@ def run(ctx, lean_ok):
     ctx.oblige('the tree under test has the REPAIRED text of both defect sites (liquid-total test; gas-row viscosity): the '
                'full-strength theorem TamocV.Props.C09.return_all_eq_individual is the one that applies to it', repaired,
                'detected variant %r: the witnesses of TamocV.Props.C09.zero_entry_density / viscosity_row_witness reproduce on the real code' % (CODE,))
-    nfl = ctx.n(130, 2500)
-    nin = ctx.n(60, 1500)
-    slow_budget = ctx.n(0, 20)      # mixed-phase states whose flash takes 60-250 ms (stability analysis at its iteration limit)
-    cases = []
-    lines = []
-    owners = []       # (case index, method) per line
+    nfl = ctx.n(130, 1500)
+    nin = ctx.n(60, 700)
+    # mixed-phase states whose flash takes 60-250 ms (stability analysis at its iteration limit)
+    state = dict(slow_budget=ctx.n(0, 15), nviol=0, ncases=0, nlines=0, nbad=0, worst=[0.], contracts=dict(nshape=0, ndirty=0, bad_shape=[], bad_dirty=[]))
     raises = {}
+    todo = [('corpus', k) for k in range(len(CORPUS))] + [('fluid', None)] * nfl + [('inert', None)] * nin
+    BATCH = 200            # cases per driver run: bounds the memory taken by the recorded tables
+    driver_ok = lean_ok
     with LibRecorder() as rec:
-        todo = [('corpus', k) for k in range(len(CORPUS))] + [('fluid', None)] * nfl + [('inert', None)] * nin
-        for i, (kind, ck) in enumerate(todo):
-            st = gen_state(r)
-            if kind == 'corpus':
-                kind = 'fluid'
-                obj, descr, x, st = corpus_case(ck)
-            elif kind == 'fluid':
-                # the first cases sweep fp_type x band so that every regime is present in every run
-                fpt = [0, 1, 2][i % 3] if i < 9 + len(CORPUS) else None
-                obj, descr, yk = gen_fluid(r, fpt)
-                if fpt is not None:
-                    st['band'] = ['small', 'mid', 'large'][(i // 3) % 3]
-                    st['de'] = {'small': lu(r, 50e-6, 300e-6), 'mid': lu(r, 1e-3, 6e-3), 'large': lu(r, 2e-2, 5e-2)}[st['band']]
-                m = fluid_masses(obj, yk, st, descr['fp_type'])
-                if descr['fp_type'] == 2 and (st['t_flash'] > 0.25 or (slow_budget <= 0 and st['t_flash'] > 0.06)):
+        for b0 in range(0, len(todo), BATCH):
+            cases, lines, owners = [], [], []
+            for i in range(b0, min(b0 + BATCH, len(todo))):
+                kind, ck = todo[i]
+                g = gen_case(ctx, r, i, kind, ck, state)
+                if g is None:
+                    continue
+                obj, kind, descr, x, st = g
+                res = run_real(rec, obj, kind, x, slow_ok=(state['slow_budget'] > 0 or descr.get('fp_type') != 2 or 'corpus' in descr))
+                if res is None:
                     ctx.count('mixed-phase state skipped (flash slower than 60 ms)')
                     continue
-                x = dict(m=[float(v) for v in m], T=st['T'], P=st['P'], Sa=st['Sa'], Ta=st['Ta'], status=st['status'])
-            else:
-                obj, descr = gen_inert(r)
-                with S.quiet():
-                    m = float(obj.mass_by_diameter(st['de'], st['T'], st['P'], st['Sa'], st['Ta']))
-                x = dict(m=m, T=st['T'], P=st['P'], Sa=st['Sa'], Ta=st['Ta'], status=st['status'])
-            i = len(cases)
-            res = run_real(rec, obj, kind, x, slow_ok=(slow_budget > 0 or descr.get('fp_type') != 2 or 'corpus' in descr))
-            if res is None:
-                ctx.count('mixed-phase state skipped (flash slower than 60 ms)')
+                if descr.get('fp_type') == 2 and res['return_all'].get('slow'):
+                    state['slow_budget'] -= 1
+                    ctx.count('mixed-phase state with a slow flash kept')
+                c = dict(idx=state['ncases'], kind=kind, descr=descr, x=x, de=st['de'], band=st['band'], res=res)
+                j = len(cases)
+                cases.append(c)
+                state['ncases'] += 1
+                for mth, rr in res.items():
+                    if isinstance(rr['out'], Raised):
+                        raises.setdefault(mth + ':' + kind, []).append((descr, x, rr['out'].text))
+                        ctx.count('raised:%s.%s' % (kind, mth))
+                        continue
+                    if kind == 'fluid':
+                        lines.append(fluid_line(descr, obj, x, mth, rr['K0'], rr['table']))
+                    else:
+                        lines.append(inert_line(descr, x, mth, rr['table']))
+                    owners.append((j, mth))
+                # the assembled tuple as ONE model run over the concatenated table (validates `individual`)
+                bundle = BUNDLE if kind == 'fluid' else IBUNDLE
+                if not any(isinstance(res[mth]['out'], Raised) for mth in bundle):
+                    table = []
+                    for mth in bundle:
+                        table += res[mth]['table']
+                    if kind == 'fluid':
+                        lines.append(fluid_line(descr, obj, x, 'individual', None, table))
+                    else:
+                        lines.append(inert_line(descr, x, 'individual', table))
+                    owners.append((j, 'individual'))
+                    c['individual_table'] = table
+            # ---- the property predicate on the REAL outputs, the intermediate properties, the library contracts
+            for c in cases:
+                predicate(ctx, c, state)
+            intermediate_check(ctx, cases)
+            library_contracts(ctx, cases, r, state['contracts'])
+            # ---- oracle-table correspondence through the driver
+            state['nlines'] += len(lines)
+            out = run_driver(ctx, 'C09', lines) if driver_ok else None
+            if out is None:
+                driver_ok = False
                 continue
-            if descr.get('fp_type') == 2 and res['return_all'].get('slow'):
-                slow_budget -= 1
-                ctx.count('mixed-phase state with a slow flash kept')
-            c = dict(idx=i, kind=kind, descr=descr, x=x, de=st['de'], band=st['band'], res=res)
-            cases.append(c)
-            for mth, rr in res.items():
-                if isinstance(rr['out'], Raised):
-                    raises.setdefault(mth + ':' + kind, []).append((descr, x, rr['out'].text))
-                    ctx.count('raised:%s.%s' % (kind, mth))
-                    continue
-                if kind == 'fluid':
-                    lines.append(fluid_line(descr, obj, x, mth, rr['K0'], rr['table']))
+            for (j, mth), resp in zip(owners, out):
+                c = cases[j]
+                if mth == 'individual':
+                    bundle = BUNDLE if c['kind'] == 'fluid' else IBUNDLE
+                    rr = dict(out=c.get('ind'), table=c['individual_table'], K1=c['res'][bundle[-1]]['K1'])
+                    if rr['out'] is None:
+                        continue
                 else:
-                    lines.append(inert_line(descr, x, mth, rr['table']))
-                owners.append((i, mth))
-            # the assembled tuple as ONE model run over the concatenated table (validates `individual`)
-            bundle = BUNDLE if kind == 'fluid' else IBUNDLE
-            if not any(isinstance(res[mth]['out'], Raised) for mth in bundle):
-                table = []
-                for mth in bundle:
-                    table += res[mth]['table']
-                if kind == 'fluid':
-                    lines.append(fluid_line(descr, obj, x, 'individual', None, table))
-                else:
-                    lines.append(inert_line(descr, x, 'individual', table))
-                owners.append((i, 'individual'))
-                c['individual_table'] = table
-        if rec.param_bad:
-            ctx.oblige('library calls receive the object\'s own chemical parameters', False, str(rec.param_bad[:5]))
-        else:
-            ctx.oblige('library calls receive the object\'s own chemical parameters', True)
-    ctx.evaluations = len(cases)
-
-    # ---- assembled tuples + the property predicate on the REAL outputs ------------------------
-    nviol = 0
-    for c in cases:
-        res, kind = c['res'], c['kind']
-        bundle = BUNDLE if kind == 'fluid' else IBUNDLE
-        fields = FIELDS if kind == 'fluid' else IFIELDS
-        ra = res['return_all']['out']
-        parts = [res[mth]['out'] for mth in bundle]
-        fo, mi0, mi1 = (None, None, None)
-        if kind == 'fluid' and c['descr']['fp_type'] == 2:
-            fo, mi0, mi1 = flash_outcome(res)
-        zero_entry = bool(mi1 is not None and fo == 'mix' and any(v == 0. for v in mi1))
-        shape = ra[0] if not isinstance(ra, Raised) else None
-        key = (kind, c['descr'].get('fp_type'), fo, shape, tuple(c['descr'].get('zero', [])) != (), c['x']['status'],
-               c['descr'].get('isfluid'), c['descr'].get('iscompressible'))
-        ctx.nontrivial.add(key + (float('%.3g' % c['de']), float('%.4g' % c['x']['T']), float('%.3g' % c['x']['P'])))
-        ctx.count('%s fp_type=%s%s' % (kind, c['descr'].get('fp_type'), (' flash:' + fo) if fo else ''))
-        ctx.count('shape %s (%s)' % (shape, kind))
-        ctx.count('band ' + c['band'])
-        if zero_entry:
-            ctx.count('mixed-phase with a zero entry in the liquid row')
-        if c['descr'].get('zero'):
-            ctx.count('zero-mass component(s)')
-        if isinstance(ra, Raised) or any(isinstance(p, Raised) for p in parts):
-            ctx.count('tuple incomplete (a method raised)')
-            continue
-        if kind == 'fluid':
-            ind = [parts[0][0], parts[1][0], parts[2][0], parts[3][0], parts[4][0], parts[5][0], parts[6][0],
-                   parts[7][0][0] if len(parts[7][0]) == 1 else float('nan')]
-        else:
-            ind = [parts[0][0], parts[1][0], parts[2][0], parts[3][0], parts[4][0],
-                   parts[5][0][0] if len(parts[5][0]) == 1 else float('nan')]
-        c['ind'] = ind
-        mixed = fo is not None
-        tol = TOL['flash_fugacity'] if mixed else 1e-12
-        diffs = cmp_tuples(ra, ind, tol)
-        if len(ctx.samples) < 6 and (c['idx'] % 7 == 0):
-            ctx.sample({'particle': c['descr'], 'inputs': c['x'], 'return_all': ra, 'individual': ind})
-        if diffs:
-            nviol += 1
-            dfields = set(fields[j] for j, _a, _b in diffs)
-            # signature of defect (a): the individual density is the GAS-ROW density of the gas phase alone, the
-            # solubilities (gas-phase fugacities in both paths) agree
-            sig_a = False
-            if CODE['zeroEntryTest'] and zero_entry and 'Cs' not in dfields:
-                for name, args, rv in res['density']['table']:
-                    if name == 'density' and close(list(args[2:]), list(mi0), TOL['flash_fugacity']):
-                        sig_a = close(ind[2], rv[0], 1e-12)
-            # signature of defect (b): only quantities the library derives from the particle viscosity differ
-            sig_b = bool(CODE['gasViscLiquidRow']) and fo == 'gas' and dfields <= {'us', 'beta', 'beta_T'}
-            if sig_a:
-                vkey = 'mixed-phase-zero-entry-branch'
-                what = ('mixed-phase particle with a zero-mass component: the individual methods take the single-phase-gas branch '
-                        '(np.sum(mi[1,:] == 0) counts zero entries) and disagree with return_all')
-            elif sig_b:
-                vkey = 'single-phase-gas-viscosity-row'
-                what = ('mixed-phase particle whose flash returns gas only: the individual methods use the liquid-row viscosity '
-                        '(FluidParticle.viscosity reads [1,0]) and disagree with return_all')
-            else:
-                vkey = 'bundle-ne-individual:%s:%s' % (kind, fields[diffs[0][0]])
-                what = 'return_all and the tuple assembled from the individual methods differ'
-            ctx.violation(vkey, what, {'particle': c['descr'], 'inputs': c['x'], 'flash': fo, 'liquid_row': mi1,
-                                       'return_all': ra, 'individual': ind,
-                                       'differing': [(fields[j], a, b) for j, a, b in diffs]})
-    ctx.notes.append('%d of %d cases with differing tuples' % (nviol, len(cases)))
-    intermediate_check(ctx, cases)
-    library_contracts(ctx, cases, r)
-    for k, lst in sorted(raises.items()):
+                    rr = c['res'][mth]
+                bad = compare_call(c['kind'], mth, rr, resp, state['worst'])
+                if bad:
+                    state['nbad'] += 1
+                    if state['nbad'] <= 4:
+                        ctx.broken.append(('correspondence', 'Model.Particle09 %s.%s vs dbm' % (c['kind'], mth),
+                                           '; '.join(bad[:4]) + ' | particle=%r inputs=%r' % (c['descr'], c['x'])))
+        ctx.oblige('library calls receive the object\'s own chemical parameters', not rec.param_bad, str(rec.param_bad[:5]))
+    ctx.evaluations = state['ncases']
+    k = state['contracts']
+    ctx.oblige('library contract ShapeContract: particle_shape answered 1, 2 or 3 on %d recorded calls' % k['nshape'],
+               not k['bad_shape'], str(k['bad_shape'][:3]))
+    ctx.oblige('library contract DirtyIgnoresMuP: %d recorded dirty us_ellipsoid/xfer_sphere/xfer_ellipsoid calls repeated '
+               'with another particle viscosity give the identical answer' % k['ndirty'], not k['bad_dirty'], str(k['bad_dirty'][:3]))
+    ctx.notes.append('%d of %d cases with differing tuples' % (state['nviol'], state['ncases']))
+    for kk, lst in sorted(raises.items()):
         d, x, text = lst[0]
-        ctx.notes.append('C20 finding candidate key=raises:%s (%d cases) first: %s on %r inputs %r' % (k, len(lst), text, d, x))
-
-    # ---- oracle-table correspondence through the driver ---------------------------------------
-    out = run_driver(ctx, 'C09', lines) if lean_ok else None
-    if out is not None:
-        worst = [0.]
-        nbad = 0
-        for (i, mth), resp in zip(owners, out):
-            c = cases[i]
-            if mth == 'individual':
-                bundle = BUNDLE if c['kind'] == 'fluid' else IBUNDLE
-                rr = dict(out=c.get('ind'), table=c['individual_table'], K1=c['res'][bundle[-1]]['K1'])
-                if rr['out'] is None:
-                    continue
-            else:
-                rr = c['res'][mth]
-            bad = compare_call(c['kind'], mth, rr, resp, worst)
-            if bad:
-                nbad += 1
-                if nbad <= 4:
-                    ctx.broken.append(('correspondence', 'Model.Particle09 %s.%s vs dbm' % (c['kind'], mth),
-                                       '; '.join(bad[:4]) + ' | particle=%r inputs=%r' % (c['descr'], c['x'])))
+        ctx.notes.append('C20 finding candidate key=raises:%s (%d cases) first: %s on %r inputs %r' % (kk, len(lst), text, d, x))
+    if lean_ok and driver_ok:
         ctx.oblige('oracle-table correspondence Model.Particle09 == dbm.FluidParticle/InsolubleParticle on %d method calls '
-                   '(same questions, same outputs, same cache; rel %g)' % (len(lines), TOL['gen_vs_source']), nbad == 0,
-                   '%d method calls disagree' % nbad)
-        ctx.notes.append('worst relative difference model vs code over all outputs: %.3g' % worst[0])
+                   '(same questions, same outputs, same cache; rel %g)' % (state['nlines'], TOL['gen_vs_source']), state['nbad'] == 0,
+                   '%d method calls disagree' % state['nbad'])
+        ctx.notes.append('worst relative difference model vs code over all outputs: %.3g' % state['worst'][0])
